@@ -171,6 +171,31 @@ def splice_fn(text, item, key):
             p = toks[body][3]
             inserts.append((p, p, '\n' + ptxt + '\n'))
             continue
+        if anchor == '@tail':
+            # before the last top-level statement / tail expression of the body (position, not text: survives any edit of the statements)
+            j = body + 1
+            start = None
+            fresh = True
+            while j < body_close:
+                t = toks[j]
+                if fresh:
+                    start = j
+                    fresh = False
+                if t[0] == 'p' and t[1] in ('(', '[', '{'):
+                    k = match_close(toks, j)
+                    nxt = toks[k + 1] if k + 1 < body_close else None
+                    if t[1] == '{' and (nxt is None or not ((nxt[0] == 'id' and nxt[1] == 'else') or (nxt[0] == 'p' and nxt[1] in ('.', '?', ';', ')', ',', '=>')))):
+                        fresh = True
+                    j = k + 1
+                    continue
+                if t[0] == 'p' and t[1] == ';':
+                    fresh = True
+                j += 1
+            if start is None:
+                raise LostAnchor('%s: proof anchor @tail: empty body' % key)
+            p = toks[start][2]
+            inserts.append((p, p, ptxt + '\n'))
+            continue
         if anchor.startswith('@afterloop'):
             k = int(anchor[10:])
             if k not in loop_body_close:
